@@ -90,6 +90,9 @@ def generate(seed, tier):
         # the service publishes a new configuration in which this tracepoint is unchanged (another one is added): it
         # stays installed, its count and its last fire carry on
         s["republish_at"] = r.randrange(1, n) if s["via"] == "service" and n > 1 and r.random() < 0.35 else None
+        # the tracepoint also defines a metric: a second action with the same limits, which has to admit the same hits
+        s["companion"] = s["kind"] != "metric" and not s["failing"] and s["window"] not in ("start", "end", "both") \
+            and r.random() < 0.4
     else:
         s["threads"] = r.randrange(2, 7)
         # a collecting thread may stall while it holds the action (slow condition, loaded host): 0.2 - 3 s
@@ -153,6 +156,8 @@ def _args(s):
     elif s["kind"] == "span":
         args["snapshot"] = "no_collect"
         args["span"] = "line"
+    if s.get("companion"):
+        metrics = ["m_comp"]
     return args, watches, metrics
 
 
@@ -268,6 +273,12 @@ def _execute_seq(s, ch):
                 elif started and not got:
                     # an action run without its output: forbidden work if the limits forbid it, but not an admitted hit
                     state["work_only"] = True
+                if s.get("companion"):
+                    n2 = len([e for e in rec.effects.get(seq, []) if e[0] == "metric"])
+                    if n2 != got:
+                        viol.append(V("second-action-of-the-tracepoint-disagrees", "hit at ts %d: the %s action collected %d "
+                                      "time(s), the metric action of the same tracepoint (same limits) %d; republished at %s" % (
+                                          ts, s["kind"], got, n2, s.get("republish_at"))))
                 if got:
                     state["last_collect"] = ts
                     if s["kind"] == "snapshot" and effs and effs[0][2].ts_nanos != ts:
